@@ -415,3 +415,49 @@ func Strip(v ssa.Value) ssa.Value {
 	}
 	return v
 }
+
+// FieldIn is TerminalField that also accepts a field of a struct nested by value in the named type: for
+// `x.group.f` (group a struct-typed value field of T) it answers "f, a field of T" as it does for `x.f`. The owner
+// returned is the first type along the chain x.group.f → x.group → x that is the named type asked for.
+func FieldIn(v ssa.Value, pkgPath, name string) *types.Var {
+	t := Terminal(v)
+	var fld *types.Var
+	for i := 0; i < 4; i++ {
+		var base ssa.Value
+		switch x := t.(type) {
+		case *ssa.FieldAddr:
+			if fld == nil {
+				fld = FieldOfAddr(x)
+			}
+			base = x.X
+		case *ssa.Field:
+			if fld == nil {
+				fld = FieldOfAddr(x)
+			}
+			base = x.X
+		default:
+			return nil
+		}
+		if IsNamed(base.Type(), pkgPath, name) {
+			return fld
+		}
+		t = base
+	}
+	return nil
+}
+
+// BaseIn climbs from a field address through by-value nesting to the base value of the named type, or nil.
+func BaseIn(v ssa.Value, pkgPath, name string) ssa.Value {
+	t := v
+	for i := 0; i < 4; i++ {
+		fa, ok := t.(*ssa.FieldAddr)
+		if !ok {
+			return nil
+		}
+		if IsNamed(fa.X.Type(), pkgPath, name) {
+			return fa.X
+		}
+		t = fa.X
+	}
+	return nil
+}
